@@ -1390,6 +1390,12 @@ KILLS = [
     "program, direct-mode error, STOP or Ctrl-Break in the handler)",
     "seeded: ENVIRON accepts an empty variable name -> escaped.OSError@python3.py:setenvu (specs "
     "and grammar units)",
+    "revert of 0108e7d1 (EGA plane registers in text mode) -> escaped.AttributeError@machine.py:out_ "
+    "(machine unit: 'OUT 965,254' in a text mode)",
+    "revert of b37e0de9 (string variable as array index in a macro string) -> "
+    "escaped.AttributeError@mlparser.py:_parse_indices (macro unit: PLAY \"O=R(Q$(1));\")",
+    "revert of ded692ca (tokenised file larger than memory) -> escaped.error@program.py:"
+    "rebuild_line_dict (bigfile unit: RUN of a 70003-byte tokenised file)",
     "the tree before the integrator's fixes (commit 644b472a) -> escaped.ValueError@python3.py:"
     "setenvu, escaped.KeyError@strings.py:_retrieve, escaped.AttributeError@parports.py:do_print",
 ]
